@@ -554,7 +554,8 @@ static unsigned char deref(unsigned pos, ring_t *ring)
 
 static size_t bundle_ring_length(ring_t *ring)
 {
-    unsigned pos = 8+8;//goto first length field
+    const uint64_t total = (uint64_t)ring[0].len+ring[1].len;
+    uint64_t pos = 8+8;//goto first length field
     uint32_t advance = 0;
     do {
         advance = deref(pos+0, ring) << (8*3) |
@@ -562,10 +563,10 @@ static size_t bundle_ring_length(ring_t *ring)
                   deref(pos+2, ring) << (8*1) |
                   deref(pos+3, ring) << (8*0);
         if(advance)
-            pos += 4+advance;
-    } while(advance);
+            pos += 4+(uint64_t)advance;
+    } while(advance && pos <= total); //an element can not end behind the data
 
-    return pos <= (ring[0].len+ring[1].len) ? pos : 0;
+    return pos <= total ? pos : 0;
 }
 
 //Zero means no full message present
